@@ -14,6 +14,7 @@ theorem inv1_wstep (st st' : St) (w : Wk) (pc : WPc) (e : Env) (h : Inv1 st)
   | idle => wprep; cases e <;> crunch
   | sTake s => wprep; crunch
   | sDis s c => wprep; crunch
+  | fOr s t => wprep; crunch
   | fTake s t => wprep; crunch
   | xio c => wprep; crunch
   | xtake s => wprep; crunch
